@@ -1592,6 +1592,29 @@ pub fn c19_program(header: &str, picks: &[usize]) -> (String, String) {
     (src, shape.join("+"))
 }
 
+/// two or three unrelated contracts (no inheritance, no mutual reference) in which one name denotes different variables
+pub fn same_name_variable_files() -> Vec<(String, String)> {
+    let h = "pragma solidity 0.8.10;\n";
+    let reader = |c: &str, v: &str| format!("contract {} {{\n    uint {};\n    function g() public view returns (uint) {{ return {}; }}\n}}\n", c, v, v);
+    let ctor = |c: &str, v: &str| format!("contract {} {{\n    uint {};\n    constructor() {{ {} = 1; }}\n    function g() public view returns (uint) {{ return {}; }}\n}}\n", c, v, v, v);
+    let writer = |c: &str, v: &str, w: &str| format!("contract {} {{\n    uint {};\n    function f() public {{ {}; }}\n}}\n", c, v, w.replace("@", v));
+    let param = |c: &str, v: &str| format!("contract {} {{\n    function f(uint {}) public returns (uint) {{ {} = 2; return {}; }}\n}}\n", c, v, v, v);
+    let local = |c: &str, v: &str| format!("contract {} {{\n    function f() public returns (uint) {{ uint {}; {} = 2; return {}; }}\n}}\n", c, v, v, v);
+    let mut out = vec![];
+    for (wn, w) in [("assign", "@ = 1"), ("compound", "@ += 1"), ("increment", "@++"), ("decrement", "--@")] {
+        out.push((format!("never-written+{}-elsewhere", wn), format!("{}{}{}", h, reader("A", "x"), writer("B", "x", w))));
+        out.push((format!("{}-elsewhere+never-written", wn), format!("{}{}{}", h, writer("B", "x", w), reader("A", "x"))));
+        out.push((format!("constructor-assigned+{}-elsewhere", wn), format!("{}{}{}", h, ctor("A", "x"), writer("B", "x", w))));
+    }
+    out.push(("state-variable+parameter-elsewhere".into(), format!("{}{}{}", h, reader("A", "x"), param("B", "x"))));
+    out.push(("state-variable+local-elsewhere".into(), format!("{}{}{}", h, reader("A", "x"), local("B", "x"))));
+    out.push(("parameter-elsewhere+state-variable".into(), format!("{}{}{}", h, param("B", "x"), reader("A", "x"))));
+    out.push(("three-contracts".into(), format!("{}{}{}{}", h, reader("A", "x"), reader("C", "y"), writer("B", "x", "@ = 1"))));
+    // control: different names -- no interference possible
+    out.push(("control-different-names".into(), format!("{}{}{}", h, reader("A", "x"), writer("B", "z", "@ = 1"))));
+    out
+}
+
 pub fn corpus_c19(tier: &str, rng: &mut Rng) -> Vec<Case> {
     let mut out = vec![];
     let n = ITEM_POOL.len();
@@ -1622,6 +1645,11 @@ pub fn corpus_c19(tier: &str, rng: &mut Rng) -> Vec<Case> {
         if pos == "cross-contract" {
             out.push(file_case(None, "same-name-functions", Kind::Mixed, &format!("same-name:{}", variant), src));
         }
+    }
+    // UNRELATED contracts that use the same variable name (state variable vs. state variable, parameter, local):
+    // the hazard named in the property's anchors (name-keyed state-variable table for the whole file)
+    for (variant, src) in same_name_variable_files() {
+        out.push(file_case(None, "same-name-variables", Kind::Mixed, &format!("same-name-variable:{}", variant), src));
     }
     // multi-item files of the other corpora
     for (name, t) in gen::FILE_POS {
